@@ -1226,7 +1226,7 @@ func main() {
 	}
 	bad := 0
 	for _, s := range sites {
-		if !insensitive[s.Shape] && s.Shape != "inspected_harmless" && s.Shape != "known_sensitive" {
+		if !insensitive[s.Shape] && s.Shape != "inspected_harmless" {
 			bad++
 			fmt.Printf("SENSITIVE %s shape=%s effects=%v %s:%d fingerprint=%s %s\n", s.Name, s.Shape, s.Effects, s.File, s.Line, s.Fingerprint, s.Why)
 		}
